@@ -52,6 +52,7 @@ type Spec struct {
 	Chunks    []string `json:"chunks"`           // hex
 	Fault     string   `json:"fault"`            // "" | eof | eio : what Read returns after the script
 	Runs      int      `json:"runs"`
+	Patience  int      `json:"patience,omitempty"` // watchdog multiplier (scripts in which macros run macros)
 }
 
 type Wait struct {
@@ -92,6 +93,7 @@ type Trace struct {
 	Invoked []string     `json:"invoked,omitempty"` // probe commands in invocation order, with the keys that called them
 	Blocked bool         `json:"blocked"`           // script exhausted while waiting for input (no fault requested)
 	Spins   int          `json:"fault_reads"`
+	SpinAt  string       `json:"spin_at,omitempty"` // call stack of the 65th failing read
 	Hang    bool         `json:"hang,omitempty"` // set by the parent when the watchdog fired
 	Error   string       `json:"error,omitempty"`
 }
